@@ -12,7 +12,6 @@ assert sys.platform.startswith("linux"), "unsupported platform"
 from gallia.command import Scanner
 from gallia.command.base import ScannerConfig
 from gallia.command.config import AutoInt, Field
-from gallia.plugins.plugin import load_transport
 from gallia.services.xcp import CANXCPSerivce, XCPService
 from gallia.transports import ISOTPTransport, RawCANTransport
 from gallia.utils import catch_and_log_exception
@@ -47,17 +46,17 @@ class SimpleTestXCP(Scanner):
         self.service: XCPService
 
     async def setup(self) -> None:
-        transport_type = load_transport(self.config.target)
-        transport = await transport_type.connect(self.config.target)
+        # Scanner.setup() connects self.transport, teardown() closes it again.
+        await super().setup()
 
-        if isinstance(transport, RawCANTransport):
+        if isinstance(self.transport, RawCANTransport):
             assert self.config.can_master is not None and self.config.can_slave is not None
 
-            self.service = CANXCPSerivce(transport, self.config.can_master, self.config.can_slave)
+            self.service = CANXCPSerivce(
+                self.transport, self.config.can_master, self.config.can_slave
+            )
         else:
-            self.service = XCPService(transport)
-
-        await super().setup()
+            self.service = XCPService(self.transport)
 
     async def main(self) -> None:
         await catch_and_log_exception(self.service.connect)
